@@ -161,6 +161,9 @@ def main(argv=None):
     try:
         from vlib import shims
         st = shims.selftest()
+        if isinstance(st.get('S5'), str):
+            print('WARNING shim S5 (symbolic MPI twin) cannot be rebuilt from this tree: %s - obligations flagged symmpi run on the real MPI class' % st['S5'])
+            os.environ['VERIF_NO_SYMMPI'] = '1'
         hmod = importlib.import_module('harness.' + prop.lower())
         sanity_calls = list(getattr(hmod, 'SANITY', []))
     except Exception:
